@@ -54,7 +54,7 @@ theorem exec_append (E : EvalEnv) (a b : List Op) (s : St) :
 /-- the fragment set covered by T3 so far. -/
 def inS1 : Ms → Bool
   | .f0 | .f1 | .pk_k _ | .pk_h _ | .hash _ _ | .older _ | .after _ => true
-  | .wrap w x => (w == .c || w == .v || w == .a || w == .n || w == .s || w == .d) && inS1 x
+  | .wrap w x => (w == .c || w == .v || w == .a || w == .n || w == .s || w == .d || w == .j) && inS1 x
   | .bin b x y =>
     (b == .and_v || b == .and_b || b == .or_b || b == .or_i || b == .or_c || b == .or_d) &&
       inS1 x && inS1 y
@@ -120,7 +120,7 @@ theorem exec_skip (E : EvalEnv) (ctx : Ctx) (h160 : Bytes → Bytes) :
     simp only [inS1, Bool.and_eq_true, Bool.or_eq_true, beq_iff_eq] at hin
     have H := fun v => exec_skip E ctx h160 x v st al cs hin.2 hc
     have hs := fun o ho os => exec_cons_skip E o os st al cs ho hc
-    rcases hin.1 with ((((rfl | rfl) | rfl) | rfl) | rfl) | rfl
+    rcases hin.1 with (((((rfl | rfl) | rfl) | rfl) | rfl) | rfl) | rfl
     · cases v <;> simp [opsOf, exec_append, H, hs .checksig rfl, hs .checksigverify rfl]
     · simp only [opsOf, exec_append, H]
       split <;> simp [hs .verify rfl]
@@ -129,6 +129,8 @@ theorem exec_skip (E : EvalEnv) (ctx : Ctx) (h160 : Bytes → Bytes) :
     · simp [opsOf, exec_append, H, hs .swap rfl]
     · have H' := exec_skip E ctx h160 x false st al (false :: cs) hin.2 (by simp [executing_cons])
       simp [opsOf, exec_append, hs .dup rfl, exec, step, hc, H']
+    · have H' := exec_skip E ctx h160 x false st al (false :: cs) hin.2 (by simp [executing_cons])
+      simp [opsOf, exec_append, hs .size rfl, hs .zeronotequal rfl, exec, step, hc, H']
   | .bin b x y, v, st, al, cs, hin, hc => by
     simp only [inS1, Bool.and_eq_true, Bool.or_eq_true, beq_iff_eq] at hin
     have Hx := fun v => exec_skip E ctx h160 x v st al cs hin.1.2 hc
@@ -165,6 +167,7 @@ inductive Sat (E : EvalEnv) : Ms → List Bytes → Prop
   | after (n : Nat) : E.cltvOK (encodeNum n) = true → Sat E (.after n) []
   | wrap (w : Wrap) (x : Ms) (s : List Bytes) : w ≠ .d → w ≠ .j → Sat E x s → Sat E (.wrap w x) s
   | wrap_d (x : Ms) (s : List Bytes) : Sat E x s → Sat E (.wrap .d x) ([1] :: s)
+  | wrap_j (x : Ms) (s : List Bytes) : Sat E x s → (∀ e ∈ s, e.length ≤ 520) → Sat E (.wrap .j x) s
   | and_v (x y : Ms) (sx sy : List Bytes) :
     Sat E x sx → Sat E y sy → Sat E (.bin .and_v x y) (sx ++ sy)
   | and_b (x y : Ms) (sx sy : List Bytes) :
@@ -210,6 +213,7 @@ inductive Dsat (E : EvalEnv) : Ms → List Bytes → Prop
   | wrap_n (x : Ms) (s : List Bytes) : Dsat E x s → Dsat E (.wrap .n x) s
   | wrap_s (x : Ms) (s : List Bytes) : Dsat E x s → Dsat E (.wrap .s x) s
   | wrap_d (x : Ms) : Dsat E (.wrap .d x) [[]]
+  | wrap_j (x : Ms) : Dsat E (.wrap .j x) [[]]
   | or_d (x y : Ms) (sx sy : List Bytes) :
     Dsat E x sx → Dsat E y sy → Dsat E (.bin .or_d x y) (sx ++ sy)
   | andor (x y z : Ms) (sx sz : List Bytes) :
@@ -466,6 +470,43 @@ theorem u_wrap_as (w : Wrap) (hw : w = .a ∨ w = .s) (x : Ms) (h : Typed ctx (.
   rw [sanitized_eq _ h]
   rcases hw with rfl | rfl <;> simp [wrapperProperties, Props.has]
 
+@[simp] theorem or_n (a b : Props) : (a ||| b).n = (a.n || b.n) := rfl
+@[simp] theorem and_n' (a b : Props) : (a &&& b).n = (a.n && b.n) := rfl
+@[simp] theorem when_n (c : Bool) (p : Props) : (Props.when c p).n = (c && p.n) := by cases c <;> rfl
+
+theorem n_wrap (w : Wrap) (x : Ms) (h : Typed ctx (.wrap w x)) :
+    (typeOf ctx (.wrap w x)).n = (match w with | .c | .v | .n => (typeOf ctx x).n | .d | .j => true | _ => false) := by
+  unfold Typed at h
+  simp only [typeOf] at h ⊢
+  rw [sanitized_eq _ h]
+  cases w <;> simp [wrapperProperties, Props.has]
+
+theorem n_bin (b : Bin) (x y : Ms) (h : Typed ctx (.bin b x y)) :
+    (typeOf ctx (.bin b x y)).n = (match b with
+      | .and_v | .and_b => (typeOf ctx x).n || ((typeOf ctx x).z && (typeOf ctx y).n)
+      | _ => false) := by
+  unfold Typed at h
+  simp only [typeOf] at h ⊢
+  cases b <;> simp only [Bin.isAnd, if_true, Bool.false_eq_true, if_false] at h ⊢ <;> rw [sanitized_eq _ h] <;>
+    simp [andProperties, orProperties, Props.has]
+
+theorem n_andor (x y z : Ms) (h : Typed ctx (.andor x y z)) :
+    (typeOf ctx (.andor x y z)).n = false := by
+  unfold Typed at h
+  simp only [typeOf] at h ⊢
+  rw [sanitized_eq _ h]
+  simp [andorProperties, Props.has]
+
+theorem ty_j (x : Ms) (h : Typed ctx (.wrap .j x)) :
+    (typeOf ctx x).B = true ∧ (typeOf ctx x).n = true ∧ (typeOf ctx (.wrap .j x)).B = true ∧
+      (typeOf ctx (.wrap .j x)).x = true ∧ (typeOf ctx (.wrap .j x)).u = (typeOf ctx x).u := by
+  unfold Typed at h
+  simp only [typeOf] at h ⊢
+  rw [sanitized_eq _ h]
+  rw [sanitized_eq _ h] at h
+  simp [wrapperProperties, Props.basicCount, Props.has] at h ⊢
+  exact ⟨h.1, h.2, h⟩
+
 theorem u_and_v (x y : Ms) (h : Typed ctx (.bin .and_v x y)) :
     (typeOf ctx (.bin .and_v x y)).u = (typeOf ctx y).u := by
   unfold Typed at h
@@ -512,10 +553,11 @@ end
 
 /-- in S1, and typed at every node. -/
 def s1Typed (ctx : Ctx) : Ms → Bool
-  | .f0 | .f1 | .pk_k _ | .pk_h _ | .hash _ _ => true
+  | .f0 | .f1 | .pk_k _ | .hash _ _ => true
+  | .pk_h k => !k.isEmpty
   | .older n | .after n => decide (1 ≤ n) && decide (n < 2 ^ 31)
   | .wrap w x =>
-    (w == .c || w == .v || w == .a || w == .n || w == .s || w == .d) &&
+    (w == .c || w == .v || w == .a || w == .n || w == .s || w == .d || w == .j) &&
       decide ((typeOf ctx (.wrap w x)).basicCount = 1) && s1Typed ctx x
   | .bin b x y =>
     (b == .and_v || b == .and_b || b == .or_b || b == .or_i || b == .or_c || b == .or_d) &&
@@ -698,6 +740,18 @@ theorem ty_after (n : Nat) : Typed ctx (.after n) ∧ (typeOf ctx (.after n)).B 
   unfold Typed
   simp only [typeOf, e]
   exact key
+
+theorem ty_older_n (n : Nat) : (typeOf ctx (.older n)).n = false := by
+  have key : ∀ a b : Bool, ((Props.when a ({ g := true } : Props) ||| Props.when b ({ h := true } : Props)) |||
+      ({ B := true, z := true, f := true, m := true, x := true, k := true } : Props)).sanitized.n = false := by
+    intro a b; cases a <;> cases b <;> decide
+  exact key _ _
+
+theorem ty_after_n (n : Nat) : (typeOf ctx (.after n)).n = false := by
+  have key : ∀ a b : Bool, ((Props.when a ({ i := true } : Props) ||| Props.when b ({ j := true } : Props)) |||
+      ({ B := true, z := true, f := true, m := true, x := true, k := true } : Props)).sanitized.n = false := by
+    intro a b; cases a <;> cases b <;> decide
+  exact key _ _
 
 theorem truthy_encodeNum (n : Nat) (h1 : 1 ≤ n) (h2 : n < 2 ^ 31) : Truthy (encodeNum n) := by
   unfold Truthy numTruth
@@ -1374,6 +1428,11 @@ theorem len_s1 : ∀ (n : Ms), s1Typed ctx n = true →
         unfold Len at *
         rw [hz, ho]
         simp_all
+      | wrap_j _ _ hs _ =>
+        have := ihs s hs
+        unfold Len at *
+        rw [hz, ho]
+        simp_all
     · intro s hs
       unfold Len
       rw [hz, ho]
@@ -1383,6 +1442,7 @@ theorem len_s1 : ∀ (n : Ms), s1Typed ctx n = true →
       | wrap_n _ _ hs => have := ihd s hs; unfold Len at this; simp_all
       | wrap_s _ _ hs => simp
       | wrap_d _ => simp
+      | wrap_j _ => simp
   | .bin b x y, h => by
     simp only [s1Typed, Bool.and_eq_true, Bool.or_eq_true, beq_iff_eq, decide_eq_true_eq] at h
     obtain ⟨xs, xd⟩ := len_s1 x h.1.2
@@ -1493,6 +1553,120 @@ theorem sound_d (x : Ms) (ht : Typed ctx (.wrap .d x)) (hix : inS1 x = true)
     rw [exec_cons_run E .dup _ _ al cs rfl hc]
     simp only [stepExec, Option.bind_some, exec, e0, exec_append, e1, e2]
 
+/-! ### "n": the top element of a satisfaction is not empty -/
+
+theorem encodeNum_zero : encodeNum 0 = [] := by decide
+
+theorem ntop_s1 (hsig0 : ∀ k, E.sigOK k [] = false) : ∀ (n : Ms), s1Typed ctx n = true →
+    ∀ s, Sat E n s → (typeOf ctx n).n = true → ∃ e rest, s = e :: rest ∧ e ≠ []
+  | .f0, _, s, hs, _ => by cases hs
+  | .f1, _, s, hs, hn => by
+    have : (typeOf ctx .f1).n = false := rfl
+    rw [this] at hn; cases hn
+  | .pk_k k, _, s, hs, _ => by
+    cases hs with
+    | pk_k _ σ hσ => exact ⟨σ, [], rfl, fun h => by rw [h, hsig0] at hσ; cases hσ⟩
+  | .pk_h k, h, s, hs, _ => by
+    cases hs with
+    | pk_h _ σ hσ =>
+      refine ⟨k, [σ], rfl, fun hk => ?_⟩
+      simp [s1Typed, hk] at h
+  | .hash hk d, _, s, hs, _ => by
+    cases hs with
+    | hash _ _ p hp _ => exact ⟨p, [], rfl, fun h => by rw [h] at hp; cases hp⟩
+  | .older n, _, s, hs, hn => by
+    rw [(ty_older_n ctx n)] at hn; cases hn
+  | .after n, _, s, hs, hn => by
+    rw [(ty_after_n ctx n)] at hn; cases hn
+  | .wrap w x, h, s, hs, hn => by
+    simp only [s1Typed, Bool.and_eq_true, Bool.or_eq_true, beq_iff_eq, decide_eq_true_eq] at h
+    rw [n_wrap ctx w x h.1.2] at hn
+    cases hs with
+    | wrap _ _ _ hd hj hs =>
+      cases w <;> simp at hn hd hj
+      all_goals exact ntop_s1 hsig0 x h.2 s hs hn
+    | wrap_d _ sx hs => exact ⟨[1], sx, rfl, by decide⟩
+    | wrap_j _ _ hs _ => exact ntop_s1 hsig0 x h.2 s hs (ty_j ctx x h.1.2).2.1
+  | .bin b x y, h, s, hs, hn => by
+    simp only [s1Typed, Bool.and_eq_true, Bool.or_eq_true, beq_iff_eq, decide_eq_true_eq] at h
+    rw [n_bin ctx b x y h.1.1.2] at hn
+    have key : ∀ sx sy, Sat E x sx → Sat E y sy →
+        ((typeOf ctx x).n || ((typeOf ctx x).z && (typeOf ctx y).n)) = true →
+        ∃ e rest, sx ++ sy = e :: rest ∧ e ≠ [] := by
+      intro sx sy hsx hsy hn
+      rcases Bool.or_eq_true_iff.mp hn with h1 | h1
+      · obtain ⟨e, rest, rfl, he⟩ := ntop_s1 hsig0 x h.1.2 sx hsx h1
+        exact ⟨e, rest ++ sy, rfl, he⟩
+      · rw [Bool.and_eq_true] at h1
+        have hl := ((len_s1 E ctx x h.1.2).1 sx hsx).1 h1.1
+        have : sx = [] := List.length_eq_zero_iff.mp hl
+        subst this
+        simpa using ntop_s1 hsig0 y h.2 sy hsy h1.2
+    cases hs with
+    | and_v _ _ sx sy hsx hsy => exact key sx sy hsx hsy hn
+    | and_b _ _ sx sy hsx hsy => exact key sx sy hsx hsy hn
+    | or_b_l _ _ sx sy hsx hsy => cases hn
+    | or_b_r _ _ sx sy hsx hsy => cases hn
+    | or_b_both _ _ sx sy hsx hsy => cases hn
+    | or_i_l _ _ sx hsx => cases hn
+    | or_i_r _ _ sy hsy => cases hn
+    | or_c_l _ _ _ hsx => cases hn
+    | or_c_r _ _ sx sy hsx hsy => cases hn
+    | or_d_l _ _ _ hsx => cases hn
+    | or_d_r _ _ sx sy hsx hsy => cases hn
+  | .andor x y z, h, s, hs, hn => by
+    simp only [s1Typed, Bool.and_eq_true, decide_eq_true_eq] at h
+    rw [n_andor ctx x y z h.1.1.1] at hn; cases hn
+  | .multi _ _, h, _, _, _ | .multi_a _ _, h, _, _, _ | .thresh _ _ _, h, _, _, _ => by
+    simp [s1Typed] at h
+
+theorem sound_j (x : Ms) (ht : Typed ctx (.wrap .j x)) (hix : inS1 x = true)
+    (ih : Sound E ctx h160 x)
+    (hn : ∀ s, Sat E x s → ∃ e rest, s = e :: rest ∧ e ≠ []) :
+    Sound E ctx h160 (.wrap .j x) := by
+  obtain ⟨hB, _, tB, tx, hu⟩ := ty_j ctx x ht
+  obtain ⟨bs, _, _⟩ := ih.1 hB
+  have hsat : ∀ s stk al cs, executing cs = true → Sat E (.wrap .j x) s → ∃ v, Truthy v ∧
+      ((typeOf ctx (.wrap .j x)).u = true → v = [1]) ∧
+      exec E (opsOf ctx h160 false (.wrap .j x)) ⟨s ++ stk, al, cs⟩ = some ⟨v :: stk, al, cs⟩ := by
+    intro s stk al cs hc hs
+    cases hs with
+    | wrap _ _ _ _ hj _ => exact absurd rfl hj
+    | wrap_j _ _ hsx hsz =>
+      obtain ⟨e, rest, rfl, he⟩ := hn s hsx
+      obtain ⟨v, hv, hvu, ex⟩ := bs (e :: rest) stk al (true :: cs) (by simp [executing_cons, hc]) hsx
+      refine ⟨v, hv, fun h => hvu (by rw [← hu]; exact h), ?_⟩
+      have hlen : 1 ≤ e.length := by
+        cases e with
+        | nil => exact absurd rfl he
+        | cons _ _ => simp
+      have h520 : e.length < 2 ^ 31 := by
+        have := hsz e (by simp); omega
+      have e1 : numTruth (encodeNum e.length) = some true := truthy_encodeNum e.length hlen h520
+      have e0 : step E .opif ⟨[1] :: e :: (rest ++ stk), al, cs⟩ =
+          some ⟨e :: (rest ++ stk), al, true :: cs⟩ := by simp [step, hc, castToBool]
+      have e2 : step E .endif ⟨v :: stk, al, true :: cs⟩ = some ⟨v :: stk, al, cs⟩ := by simp [step]
+      simp only [List.cons_append] at ex
+      simp only [opsOf, List.append_assoc, List.cons_append, List.nil_append]
+      rw [exec_cons_run E .size _ _ al cs rfl hc]
+      simp only [stepExec, Option.bind_some]
+      rw [exec_cons_run E .zeronotequal _ _ al cs rfl hc]
+      simp only [stepExec, e1, boolBytes, if_true, Option.bind_some, exec, e0, exec_append, ex, e2]
+  refine sound_of_B E ctx h160 _ ht tB ⟨hsat, ?_, bVer_of_x' E ctx h160 _ tx rfl hsat⟩
+  intro s stk al cs hc hs
+  cases hs with
+  | wrap_j _ =>
+    have e0 : step E .opif ⟨[] :: [] :: stk, al, cs⟩ = some ⟨[] :: stk, al, false :: cs⟩ := by
+      simp [step, hc, castToBool]
+    have e1 := exec_skip E ctx h160 x false ([] :: stk) al (false :: cs) hix (by simp [executing_cons])
+    have e2 : step E .endif ⟨[] :: stk, al, false :: cs⟩ = some ⟨[] :: stk, al, cs⟩ := by simp [step]
+    simp only [opsOf, List.append_assoc, List.cons_append, List.nil_append]
+    rw [exec_cons_run E .size _ _ al cs rfl hc]
+    simp only [stepExec, Option.bind_some, List.length_nil, encodeNum_zero]
+    rw [exec_cons_run E .zeronotequal _ _ al cs rfl hc]
+    simp only [stepExec, numTruth_nil, boolBytes, Bool.false_eq_true, if_false, Option.bind_some,
+      exec, e0, exec_append, e1, e2]
+
 /-- T3 for S1: every typed expression of the fragment set does to the stack what its type says. -/
 theorem sound_s1 (hsig0 : ∀ k, E.sigOK k [] = false) (hH : ∀ k, E.hashF .hash160 k = h160 k) :
     ∀ (n : Ms), s1Typed ctx n = true → Sound E ctx h160 n
@@ -1515,13 +1689,15 @@ theorem sound_s1 (hsig0 : ∀ k, E.sigOK k [] = false) (hH : ∀ k, E.hashF .has
       rcases hs with hs | hs
       · exact (len_s1 E ctx x h.2).1 s hs
       · exact (len_s1 E ctx x h.2).2 s hs
-    rcases h.1.1 with ((((rfl | rfl) | rfl) | rfl) | rfl) | rfl
+    rcases h.1.1 with (((((rfl | rfl) | rfl) | rfl) | rfl) | rfl) | rfl
     · exact sound_c E ctx h160 x h.1.2 ih
     · exact sound_v E ctx h160 x h.1.2 ih
     · exact sound_a E ctx h160 x h.1.2 ih
     · exact sound_n E ctx h160 x h.1.2 ih
     · exact sound_s E ctx h160 x h.1.2 ih hlen
     · exact sound_d E ctx h160 x h.1.2 (inS1_of_s1Typed ctx x h.2) ih hlen
+    · exact sound_j E ctx h160 x h.1.2 (inS1_of_s1Typed ctx x h.2) ih
+        (fun s hs => ntop_s1 E ctx hsig0 x h.2 s hs (ty_j ctx x h.1.2).2.1)
   | .bin b x y, h => by
     simp only [s1Typed, Bool.and_eq_true, Bool.or_eq_true, beq_iff_eq, decide_eq_true_eq] at h
     have ihx := sound_s1 hsig0 hH x h.1.2
